@@ -223,6 +223,60 @@ def e2e_molecule_indels(args):
     return out
 
 
+def e2e_segment_indels(args):
+    """sv/segment_indels.run end to end: it runs COMA itself (default mode, a SegmentsCatcher extension), reads the segments
+    it caught and the alignment file back and writes the calls at the places where segments were joined; every un-merged
+    call of the written file is a Trace_Indels line of kind 'flank' against the query's record in the alignment file"""
+    import shutil
+    from lib import pipecases, pipeline
+    seed, idx, workroot = args
+    rng = random.Random(seed * 9001 + idx)
+    _, _, seg = sv_modules()
+    inp = pipecases.make_input(rng, n_refs=1, n_qry=10, ref_labels=(140, 220), decimals=(idx % 2 == 0),
+                               kinds=["smallindel", "indel", "splitindel", "smallindel", "exact", "splitindelrev", "smallindel",
+                                      "indel", "noisy", "smallindel"])
+    wd = os.path.join(workroot, f"c20seg-{os.getpid()}-{idx}")
+    out = {"lines": [], "status": "ok", "rows": 0, "records": 0}
+    try:
+        rp, qp = pipecases.write_input(wd, inp, "in")
+        aligned = os.path.join(wd, "o.xmap")
+        target = os.path.join(wd, "segment_indels.txt")
+        pipeline.install_sequential_map()
+        try:
+            seg.run(SimpleNamespace(queryFile=qp, referenceFile=rp, alignedFile=aligned, segmentsFile=os.path.join(wd, "segs.csv"),
+                                    outputFile=target, secondaryMargin=16000, peakHeightThreshold=27, segmentJoinMultiplier=1,
+                                    sequentialityScore=0, diagnosticsEnabled=False))
+        except Exception as e:       # noqa: BLE001
+            out["status"] = "finder_raised:" + type(e).__name__
+            return out
+        recs = {r["q"]: r for r in pipeline.parse_xmap(aligned)["records"] if not r.get("malformed")}
+        out["records"] = len(recs)
+        ref = inp["refs"][0]
+        qmap = {q["id"]: q for q in inp["qrys"]}
+
+        def deci(txt):
+            return int(round(float(txt) * 10))
+
+        for ln in open(target):
+            if ln.startswith("#") or not ln.strip():
+                continue
+            c = ln.rstrip("\n").split("\t")
+            out["rows"] += 1
+            if (len(c) > 8 and int(c[8]) != 1) or "," in c[4]:
+                continue
+            q = int(c[4])
+            if q not in recs or q not in qmap:
+                continue
+            out["lines"].append({"kind": "flank",
+                                 "call": {"type": c[0], "chr": int(c[1]), "rs": deci(c[2]), "re": deci(c[3]), "qid": q,
+                                          "qs": deci(c[5]), "qe": deci(c[6]), "len": deci(c[7])},
+                                 "pairs": recs[q]["pairs"], "refx": ref["x"], "qryx": qmap[q]["x"],
+                                 "tag": {"input": idx, "query": q, "tool": "segment_indels"}})
+    finally:
+        shutil.rmtree(wd, ignore_errors=True)
+    return out
+
+
 REPLAY = ("Trace_Indels", "Trace_Indels.cfg", None, ("via", "finder", "tag"))     # the stored result is judged as recorded
 
 
@@ -302,7 +356,17 @@ def run(ctx: Ctx):
     n_e2e = 10 if quick else 150
     with mp.get_context("fork").Pool(min(10, n_e2e)) as pool:
         e2e = pool.map(e2e_molecule_indels, [(ctx.seed * 41 + 20, i, ctx.workdir) for i in range(n_e2e)])
-    flank = [ln for r in e2e for ln in r["lines"]]
+    n_seg = 10 if quick else 120
+    with mp.get_context("fork").Pool(min(10, n_seg)) as pool:
+        e2s = pool.map(e2e_segment_indels, [(ctx.seed * 43 + 20, i, ctx.workdir) for i in range(n_seg)])
+    ctx.notes["end_to_end_segment_indels"] = {"inputs": n_seg, "records": sum(r["records"] for r in e2s),
+                                              "rows_written": sum(r["rows"] for r in e2s),
+                                              "unmerged_calls_judged": sum(len(r["lines"]) for r in e2s),
+                                              "status": sorted({r["status"] for r in e2s})}
+    for r in e2s:
+        if r["status"].startswith("finder_raised"):
+            ctx.add_drift(1, {"end_to_end_segment_indels": r["status"]})
+    flank = [ln for r in e2e for ln in r["lines"]] + [ln for r in e2s for ln in r["lines"]]
     ctx.notes["end_to_end_molecule_indels"] = {"inputs": n_e2e, "joined_records": sum(r["joined"] for r in e2e),
                                                "rows_written": sum(r["rows"] for r in e2e), "unmerged_calls_judged": len(flank),
                                                "status": sorted({r["status"] for r in e2e})}
